@@ -192,6 +192,8 @@ pub struct NodeRec {
     pub key: Option<usize>,
     /// sum of all waker fires seen at the end of the previous poll (S oracle)
     pub fire_snapshot: u64,
+    /// a child whose type has no destructor: its drop cannot be observed
+    pub untracked_drop: bool,
     /// leaves: number of waker invocations recorded so far (kept incrementally:
     /// long runs must not re-count them on every poll)
     pub fire_count: u64,
@@ -260,6 +262,8 @@ impl NodeRec {
 }
 
 pub struct TokRec {
+    /// a value of a type without destructor: drops are not observable
+    pub untracked: bool,
     /// the child that produced it; None for harness-side composites
     pub producer: Option<NodeId>,
     pub drops: u32,
@@ -442,6 +446,7 @@ pub fn new_composite(kind: TokKind) -> Val {
         let id = crate::val::handle_of(w.toks.len());
         let born = w.tick();
         w.toks.push(TokRec {
+            untracked: false,
             producer: None,
             drops: 0,
             born,
@@ -480,6 +485,9 @@ impl World {
             }
             if let Some(t) = self.toks.get_mut(crate::val::index_of(id)) {
                 t.drops += 1;
+                if t.drops > 1 && t.untracked {
+                    continue;
+                }
                 if t.drops > 1 {
                     let m = format!("value t{} dropped {} times", crate::val::index_of(id), t.drops);
                     let f = self.tok_family(id);
@@ -592,6 +600,7 @@ impl World {
             removed_at: None,
             key: None,
             fire_snapshot: 0,
+            untracked_drop: false,
             fire_count: 0,
             drop_begin: None,
             item: None,
@@ -609,6 +618,7 @@ impl World {
         let id = crate::val::handle_of(self.toks.len());
         let born = self.tick();
         self.toks.push(TokRec {
+            untracked: false,
             producer: Some(producer),
             drops: 0,
             born,
@@ -1076,7 +1086,7 @@ pub fn node_dropped(id: NodeId) {
         // a combinator node: every child it still owned must be gone by now
         let kids: Vec<NodeId> = w.nodes[id].children().to_vec();
         for k in kids {
-            if w.nodes[k].drops == 0 {
+            if w.nodes[k].drops == 0 && !w.nodes[k].untracked_drop {
                 let m = format!(
                     "{} outlives its owner {}: not dropped when the owner's drop returned",
                     w.path(k),
